@@ -28,6 +28,7 @@ def run(ctx):
     ctx.rule("R12.2", "VA-CONSUME: every call of rtosc_v2args passes nreserved(<same string>) as count, or a count of 1 under has_reserved(*<same string>)")
     ctx.rule("R12.4", "PAIRING: a length/index written into an argument array derives from the position of the iterator that walks that same array (runtime values vs. defaults: the two lists have different slot layouts once one is range-compressed)")
     ctx.rule("R12.5", "PER-MESSAGE: the dependency scan of the loader keeps no mutable state across the messages of a file")
+    ctx.rule("R12.6", "HEADER: load_from_file rejects (negative return) when a header line does not scan, and compares the application name with exact string equality; the two header lines it scans are the ones save_to_file writes")
     ctx.rule("R12.3", "CAPTURE-FORMAT: every literal-format reply/broadcast in the macro-generated callbacks passes the C types rtosc_v2args / rtosc_v2argvals will read")
     meta_u = ctx.ast("meta_matrix.cpp")
     sugar_u = ctx.ast("sugar_matrix.cpp")
@@ -135,6 +136,40 @@ def run(ctx):
 
     from . import C13
     C13.per_message_state(ctx, us, "R12.5")
+    # ---- R12.6
+    import re as _re
+    fl = us.function("load_from_file")
+    appp = [p_ for p_ in us.params(fl) if p_.get("name") == "appname"]
+    ctx.require(len(appp) == 1, "load_from_file: parameter appname not found")
+    cmpc = [c for c in A.calls_in(us.body(fl)) if A.callee_name(c) in ("strcmp", "strncmp", "strstr", "strcasecmp", "memcmp") and
+            any(A.ref_id(a) == appp[0]["id"] for a in A.kids(c)[1:])]
+    ok = len(cmpc) == 1 and A.callee_name(cmpc[0]) == "strcmp"
+    rejects = False
+    if ok:
+        for a in us.ancestors(cmpc[0]):
+            if a.get("kind") == "IfStmt":
+                # the comparison (non-zero = different) is a disjunct of the rejecting condition
+                rejects = any(y.get("kind") == "ReturnStmt" for y in A.walk(A.kids(a)[1]))
+                break
+    ctx.ob("R12.6", "application name compared exactly", ok and rejects, site=A.where(cmpc[0]) if cmpc else A.where(fl), detail={"comparison": [A.src(c) for c in cmpc], "rejecting_branch": rejects},
+           what="load_from_file checks the application name with %s: a file of another application can be accepted" % [A.src(c) for c in cmpc])
+    # every header sscanf is followed by a rejection on n <= 0
+    scans = [c for c in A.calls_in(us.body(fl), "sscanf")]
+    ctx.require(len(scans) == 2, "load_from_file: expected two header sscanf calls")
+    top = A.kids(us.body(fl))
+    for k_, c in enumerate(scans):
+        idx = next(i_ for i_, s_ in enumerate(top) if any(y.get("id") == c.get("id") for y in A.walk(s_)))
+        nxt = top[idx + 1] if idx + 1 < len(top) else None
+        okr = nxt is not None and nxt.get("kind") == "IfStmt" and "<=" in A.src(A.kids(nxt)[0]) and any(y.get("kind") == "ReturnStmt" and A.src(A.kids(y)[0]).lstrip("(").startswith("-") for y in A.walk(A.kids(nxt)[1]))
+        ctx.ob("R12.6", "header line %d rejected when it does not scan" % (k_ + 1), okr, site=A.where(c), what="load_from_file does not return a negative value when header line %d fails to scan" % (k_ + 1))
+    # writer and reader agree on the fixed words of the header
+    fsv = us.function("save_to_file")
+    wl = "".join(A.string_literal(y) or "" for y in A.walk(us.body(fsv)) if y.get("kind") == "StringLiteral")
+    rl = "".join(A.string_literal(A.kids(c)[2]) or "" for c in scans)
+    words_w = _re.findall(r'[A-Za-z]{2,}', wl)
+    words_r = [w for w in _re.findall(r'[A-Za-z]{2,}', _re.sub(r'%%|%\d*[a-z]+', ' ', rl))]
+    ctx.ob("R12.6", "header words", words_w == words_r and "savefile" in words_w, site=A.where(fsv), detail={"written": words_w, "scanned": words_r},
+           what="save_to_file writes the header words %s, load_from_file scans %s" % (words_w, words_r))
     # ---- R12.3
     vtab = OF.va_table(ur)
     lams = S.lambdas(sugar_u, os.path.join(WITNESS_DIR, "sugar_matrix.cpp"))
